@@ -128,6 +128,8 @@ def judge_case(c, marks, recs, typ, is_hist, res, variant):
     la, lb, lab = length(o['a0']), length(o['b0']), length(o['ab'])
     if la is not None:
         res.count('length_checks')
+        if max(la, lb) >= 2 ** 31:
+            res.count('huge_count_cases')
         if lab != la + lb:
             res.violation(PROP, '%s:len-not-additive' % typ, '%s: len(a)=%d len(b)=%d but merged len=%d' % (typ, la, lb, lab), c, variant)
         exp = c.meta.get('expect_len')
@@ -286,6 +288,13 @@ def run(tier, seed):
         hists.extend(itertools.product(ops, repeat=n))
     extra_rng = random.Random(seed)
     deeper = [tuple(extra_rng.choice(ops) for _ in range(L + 1)) for _ in range(2000 if tier == 'quick' else 20000)]
+    # sample sizes beyond 2^32 / 2^53 (where an f64 count is no longer exact) by repeated self-merging of register 0,
+    # with a small register 1: lengths must still add exactly and the identities must still hold bit for bit
+    for kdbl in (31, 32, 33, 52, 53, 54, 60):
+        for first in (0, 1, 2):
+            for nb in (1, 3):
+                deeper.append(tuple([('A', 0, first)] + [('M', 0, 0)] * kdbl + [('A', 1, (first + j) % 3) for j in range(nb)]))
+                deeper.append(tuple([('A', 1, first)] + [('M', 1, 1)] * kdbl + [('A', 0, (first + j) % 3) for j in range(nb)]))
     try:
         for variant, frac in variants:
             binary = build(variant)
@@ -295,7 +304,7 @@ def run(tier, seed):
             nsh = common.NPROC * (2 if tier == 'thorough' else 1)
             allh = hists + deeper
             if variant != 'release':
-                allh = allh[::4]
+                allh = allh[::4] + [h for h in deeper if len(h) > 30][::3]
             descs = []
             for s in range(nsh):
                 work = []
@@ -310,7 +319,7 @@ def run(tier, seed):
             total.merge(common.run_shards(shard, descs))
     except common.Inconclusive as e:
         total.inconclusive.append(str(e))
-    need = {'identity_checks': 10000, 'nonempty_a': 1000, 'both_nonempty': 500, 'random_histories': 500}
+    need = {'identity_checks': 10000, 'nonempty_a': 1000, 'both_nonempty': 500, 'random_histories': 500, 'huge_count_cases': 100}
     for t in EST_TYPES + HIST_TYPES:
         need['cases_%s' % t] = 50
     return common.finish(PROP, tier, seed, total, RULE, t0, ASSUME, min_events=need,
